@@ -42,11 +42,25 @@ def breakpoints():
     return []
 
 
+breakpoint_objects = []     # every Breakpoint the plugin creates: (spec, object)
+command_objects = []        # every Command the plugin registers: (name, object)
+frame_vars = {}             # what selected_frame().read_var(name) returns
+
+
+class _Frame:
+    def read_var(self, name):
+        return frame_vars[name]
+
+
+def selected_frame():
+    return _Frame()
+
+
 class Breakpoint:
-    def __init__(self, *a, **k):
-        pass
+    def __init__(self, spec=None, *a, **k):
+        breakpoint_objects.append((spec, self))
 
 
 class Command:
-    def __init__(self, *a, **k):
-        pass
+    def __init__(self, name=None, *a, **k):
+        command_objects.append((name, self))
